@@ -155,25 +155,69 @@ def value_observations(rng, n):
                             'tout': tags.get(type(r), type(r).__name__)})
             except Exception as e:      # noqa
                 obs.append({'k': 'vec', 'op': op, 'a': a, 'b': b, 'n': k, 'r': [0, 0, 0], 'tin': tags[cls], 'tout': 'raised ' + type(e).__name__})
-    # records
+    # records: the field lists are declared here (not taken from the code's own iteration); class hierarchies are
+    # included with the parent class exercised first, then its subclasses, then the parent again
     PL = clientbound.play.PlayerListItemPacket
     MBC = clientbound.play.MultiBlockChangePacket
+
+    class GroundedPAL(PositionAndLook):
+        __slots__ = 'on_ground',
+
+    class Tagged(MutableRecord):
+        __slots__ = 'tag'                       # a bare string is one slot
+
+    class TaggedMore(Tagged):
+        __slots__ = 'more', 'extra'
+
+    class TaggedMost(TaggedMore):
+        __slots__ = 'most',
+
+    def mk(cls, names, vals):
+        return (cls(**dict(zip(names, vals))), cls.__name__, names, vals)
     makers = [
-        lambda f: PositionAndLook(x=f[0], y=f[1], z=f[2], yaw=f[3], pitch=f[4]),
-        lambda f: PL.PlayerListItem(uuid=str(f[0]), name='n%d' % f[1], properties=(), gamemode=f[2], ping=f[3], display_name=None if f[4] % 2 else 'd'),
-        lambda f: MBC.Record(x=f[0] % 16, y=f[1] % 256, z=f[2] % 16, block_state_id=f[3]),
-        lambda f: PL.PlayerProperty(name='p%d' % f[0], value='v%d' % f[1], signature=None if f[2] % 2 else 's'),
+        lambda f: mk(PositionAndLook, ['x', 'y', 'z', 'yaw', 'pitch'], f[:5]),
+        lambda f: mk(PL.Action, ['uuid'], [str(f[0])]),
+        lambda f: mk(Tagged, ['tag'], [f[0]]),
+        lambda f: mk(GroundedPAL, ['x', 'y', 'z', 'yaw', 'pitch', 'on_ground'], f[:5] + [bool(f[5] % 2)]),
+        lambda f: mk(PL.AddPlayerAction, ['uuid', 'name', 'properties', 'gamemode', 'ping', 'display_name'],
+                     [str(f[0]), 'n%d' % f[1], (), f[2], f[3], None if f[4] % 2 else 'd']),
+        lambda f: mk(PL.UpdateGameModeAction, ['uuid', 'gamemode'], [str(f[0]), f[1]]),
+        lambda f: mk(PL.UpdateLatencyAction, ['uuid', 'ping'], [str(f[0]), f[1]]),
+        lambda f: mk(PL.UpdateDisplayNameAction, ['uuid', 'display_name'], [str(f[0]), None if f[1] % 2 else 'd%d' % f[1]]),
+        lambda f: mk(PL.RemovePlayerAction, ['uuid'], [str(f[0])]),
+        lambda f: mk(TaggedMore, ['tag', 'more', 'extra'], f[:3]),
+        lambda f: mk(TaggedMost, ['tag', 'more', 'extra', 'most'], f[:4]),
+        lambda f: mk(PL.PlayerListItem, ['uuid', 'name', 'properties', 'gamemode', 'ping', 'display_name'],
+                     [str(f[0]), 'n%d' % f[1], (), f[2], f[3], None if f[4] % 2 else 'd']),
+        lambda f: mk(MBC.Record, ['x', 'y', 'z', 'block_state_id'], [f[0] % 16, f[1] % 256, f[2] % 16, f[3]]),
+        lambda f: mk(PL.PlayerProperty, ['name', 'value', 'signature'], ['p%d' % f[0], 'v%d' % f[1], None if f[2] % 2 else 's']),
+        lambda f: mk(clientbound.play.MapPacket.MapIcon, ['type', 'direction', 'location', 'display_name'],
+                     [f[0], f[1], (f[2], f[3]), None if f[4] % 2 else 'm']),
     ]
     for j in range(n):
-        ia, ib = rng.randrange(len(makers)), rng.randrange(len(makers))
-        if rng.random() < 0.6:
-            ib = ia
-        fa = [rng.randint(0, 3) for _ in range(5)]
-        fb = list(fa) if rng.random() < 0.5 else [rng.randint(0, 3) for _ in range(5)]
-        A, B = makers[ia](fa), makers[ib](fb)
+        if j < 3 * len(makers):
+            ia = ib = j % len(makers)           # declaration order first: parents before their subclasses
+        else:
+            ia, ib = rng.randrange(len(makers)), rng.randrange(len(makers))
+            if rng.random() < 0.6:
+                ib = ia
+        fa = [rng.randint(0, 3) for _ in range(6)]
+        fb = list(fa) if rng.random() < 0.4 else [rng.randint(0, 3) for _ in range(6)]
+        if rng.random() < 0.3:                  # differ in exactly one (often the last) field
+            fb = list(fa)
+            k = rng.choice([5, 5, 4, 3, 2, 1, 0])
+            fb[k] = (fb[k] + 1) % 4
+        (A, ta, na, va), (B, tb, nb, vb) = makers[ia](fa), makers[ib](fb)
         same = type(A) is type(B)
-        fields = same and list(A) == list(B)
-        obs.append({'k': 'rec', 'same': same, 'fields': bool(fields), 'eq': bool(A == B), 'ne': bool(A != B), 'heq': hash(A) == hash(B)})
+        fields = ta == tb and va == vb
+        try:
+            it = list(A)
+        except Exception as e:      # noqa
+            it = ['raised', repr(e)]
+        rp = repr(A)
+        obs.append({'k': 'rec', 'same': same and ta == tb, 'fields': bool(fields), 'eq': bool(A == B), 'ne': bool(A != B),
+                    'heq': hash(A) == hash(B), 'iter': it == va, 'cls': ta,
+                    'repr': rp.startswith(ta + '(') and all('%s=%r' % (a, v) in rp for a, v in zip(na, va))})
     # aliases
     for j in range(n // 2):
         p = clientbound.play.PlayerPositionAndLookPacket()
@@ -284,7 +328,7 @@ def run(chk):
     obs = value_observations(rng, 150 if quick else 1500)
     tf2 = os.path.join(chk.work, 'values.json')
     with open(tf2, 'w') as f:
-        json.dump([{k: v for k, v in o.items() if k != 'enum'} for o in obs], f)
+        json.dump([{k: v for k, v in o.items() if k not in ('enum', 'cls')} for o in obs], f)
     r3 = chk.tlc('Trace_Values', 'Trace_Values.cfg', env={'TRACE_FILE': tf2}, must_pass=False)
     if r3.violated:
         m = re.search(r'\bi = (\d+)', r3.out)
@@ -294,11 +338,15 @@ def run(chk):
             key += ':' + bad['op']
         if bad and bad['k'] == 'flag':
             key += ':' + bad['enum']
+        if bad and bad['k'] == 'rec':
+            key += ':' + bad['cls']
         chk.violation(key, 'observation violates the law in Trace_Values: %s' % json.dumps(bad)[:400], {'obs': bad})
     elif not r3.ok:
         raise core.MachineryError('Trace_Values failed: %s' % r3.errors[:3])
     for j, o in enumerate(obs):
         chk.case(('val', j))
+        if o['k'] == 'rec' and not (o['iter'] and o['repr']):       # iteration / printing are not part of the property
+            chk.drift.append({'record-iteration-or-repr': o})
     chk.sample({'value_observation': [o for o in obs if o['k'] == 'flag' and o['v'] == 11][0]})
     chk.extra['histories_replayed'] = len(rows)
     chk.extra['long_histories'] = len(traces)
